@@ -3,6 +3,7 @@ import SimilarVerif.Props.C09
 import SimilarVerif.Props.C11
 import SimilarVerif.Lemmas.TextDiff
 import SimilarVerif.Lemmas.HeadlineGlue
+import SimilarVerif.Lemmas.HeadlineGlueG1
 /-! # C05 — headline -/
 namespace SimilarVerif.Headline
 open SimilarVerif Spec UdiffP UdiffParseP
@@ -20,6 +21,76 @@ theorem altOps_of_alternating : ∀ (ops : List Op), (∀ x ∈ ops, x.isEmpty =
     intro ⟨h1, h2⟩
     exact h.1 (by simp [h1, h2])
 
+/-- **what C05 says of ONE op list** `ops` over the line arrays `old new`, context radius `n`, header setting
+`header`: verbatim the conjuncts (a) – (f) of `C05_statement` (the proof of `C05_statement` checks that the two texts
+agree).  Used to state the same conclusions for the op list that `textDiffOps` returns, conjunct (h). -/
+def UnifiedDiffCorrect (old new : Array Bytes) (ops : List Op) (n : Nat) (header : Option (Bytes × Bytes)) : Prop :=
+    (∃ hs : List SHunk,
+      hunksOf old new ((groupDiffOps ops n).filter fun g => !g.isEmpty) = some hs ∧
+      -- (f) what is printed, every mode
+      (∀ nlt hint isLossy, renderUnified n header ops old new nlt hint isLossy =
+        .ok (if hs = [] then [] else fileHeader header ++ hs.flatMap (renderSHunk nlt hint isLossy))) ∧
+      -- (a)
+      (GoodNames header → (∀ v ∈ old, IsLine v) → (∀ v ∈ new, IsLine v) →
+        ∃ out, renderUnified n header ops old new true true false = .ok out ∧
+          parseUnified out = some (if hs = [] then none else header, hs) ∧
+          ∀ h ∈ hs, oldCount h.body = h.oE - h.oS ∧ newCount h.body = h.nE - h.nS) ∧
+      -- (b)
+      (hs.Pairwise Before ∧ ∀ h ∈ hs, InRange old.size new.size h) ∧
+      -- (c)
+      applyHunks old hs = some new.toList) ∧
+    -- (b) true positions, per group
+    (∀ g ∈ (groupDiffOps ops n).filter (fun g => !g.isEmpty), ∃ f l, g.head? = some f ∧ g.getLast? = some l ∧
+      (allChanges g).countP isOld = l.oEnd - f.oStart ∧ (allChanges g).countP isNew = l.nEnd - f.nStart ∧
+      (allChanges g).filterMap (·.oldIndex) = List.range' f.oStart (l.oEnd - f.oStart) ∧
+      (allChanges g).filterMap (·.newIndex) = List.range' f.nStart (l.nEnd - f.nStart)) ∧
+    -- (d)
+    (changesOf ops = [] → ∀ nlt hint isLossy, renderUnified n header ops old new nlt hint isLossy = .ok []) ∧
+    -- (e)
+    (∀ g ∈ groupDiffOps ops n,
+      (∃ lead core trail, allChanges g = lead ++ core ++ trail ∧
+        (∀ c ∈ lead, c.tag = .equal) ∧ lead.length ≤ n ∧ (∀ c ∈ trail, c.tag = .equal) ∧ trail.length ≤ n ∧
+        (∃ c, core.head? = some c ∧ c.tag ≠ .equal) ∧ (∃ c, core.getLast? = some c ∧ c.tag ≠ .equal)) ∧
+      NoID (allChanges g)) ∧
+    -- (f) Display vs writer
+    ((∀ a b, header = some (a, b) → lossy a = a ∧ lossy b = b) → ∀ nlt hint,
+      renderUnified n header ops old new nlt hint true =
+        (renderUnified n header ops old new nlt hint false).map lossy) ∧
+    ((∀ t, t ∈ old ∨ t ∈ new → lossy t = t) → ∀ nlt hint,
+      renderUnified n header ops old new nlt hint true = renderUnified n header ops old new nlt hint false)
+
+/-- (a) – (f) for any valid, alternating op list with exact positions -/
+theorem unifiedDiffCorrect_of (old new : Array Bytes) (e : Nat → Nat → Bool) (he : Sound old new e)
+    (ops : List Op) (n : Nat) (header : Option (Bytes × Bytes))
+    (hw : Walk e 0 0 ops old.size new.size) (hx : Exact 0 0 ops) (ha : Alternating ops) :
+    UnifiedDiffCorrect old new ops n header := by
+  have hne := C09.walk_no_empty e ops _ _ _ _ hw
+  have hv : AltOps ops := altOps_of_alternating ops hne ha
+  have hs' : SAltT (ops.map Op.tag) := sAltT_of_alternating ops ha
+  refine ⟨?_, ?_, ?_, ?_, ?_, ?_⟩
+  · obtain ⟨hs, h1, h2, _⟩ := C05.unified_applies old new e he ops n header true true false hw hx hv
+    refine ⟨hs, h1, ?_, ?_, C05.hunks_increasing old new e ops n _ _ hw hx hs h1, h2⟩
+    · intro nlt hint isLossy
+      obtain ⟨hs2, g1, -, g3⟩ := C05.unified_applies old new e he ops n header nlt hint isLossy hw hx hv
+      rw [h1] at g1; cases g1; exact g3
+    · intro hn hlo hln
+      obtain ⟨hs2, out, g1, g2, g3, g4, -⟩ := C05.parse_of_rendered old new e he ops n header hw hx hv hn hlo hln
+      rw [h1] at g1; cases g1
+      exact ⟨out, g2, g3, g4⟩
+  · intro g hg
+    obtain ⟨f, l, a1, a2, -, -, -, -, a7, a8, a9, a10⟩ := C05.header_counts_match e ops n _ _ hw hx g hg
+    exact ⟨f, l, a1, a2, a7, a8, a9, a10⟩
+  · intro hc nlt hint isLossy
+    exact C05.equal_inputs_render_empty ops n header old new nlt hint isLossy hv hc
+  · intro g hg
+    exact ⟨C05.hunk_shape ops n hv g hg, C05.deletions_before_insertions ops n hv hs' g hg⟩
+  · intro hh nlt hint
+    exact C05.display_is_lossy_writer n header ops old new nlt hint hh
+  · intro ht nlt hint
+    exact C05.display_eq_writer_on_utf8 old new ht n header ops nlt hint
+
+#print axioms unifiedDiffCorrect_of
+
 /-- **C05 — Rendered unified diffs are well-formed and apply exactly.**
 
 Vocabulary: `old new` the two line arrays (each line with its terminator, if any), `ops` the op list of the diff,
@@ -33,12 +104,23 @@ Hypotheses (visible): the ops are a valid script over the lines (`Walk` over a c
 that compare equal are equal), alternate Equal / non-Equal (`Alternating`, C09), and carry EXACT positions
 (`Exact 0 0 ops`, C11) — the renderer reads hunk positions from the first and last op of each group.  `Exact` is what
 the shipped clean-up does NOT provide (known finding, conjunct (i): `KF-compact-swap`), so this headline is the
-property for the repaired swap; conjunct (h) shows that the line diffs computed with LCS (any deadline) and with
-Myers (no deadline), repaired swap, satisfy all hypotheses.
+property for the repaired swap.  The theorem has two layers:
+* (a) – (g): for ANY op list with these three properties (the general clause; its conjuncts (a) – (f) are, verbatim,
+  the definition `UnifiedDiffCorrect old new ops n header` directly above);
+* (h): END TO END, with NO `Exact` hypothesis — for the repaired swap (`textDiffOps alg true`), all three algorithms,
+  `alg = .lcs ∨ w.clock = none` (LCS under EVERY clock, Myers and Patience without a deadline: the range of
+  `C11_statement` (a)), and any two token arrays `lo ln`: `textDiffOps` RETURNS an op list `ops'` that is a valid
+  script over the (sound) token comparison, alternating and `Exact` (`C11.capture_exact_repaired_total`), hence
+  (a) – (f) hold of `ops'` [`UnifiedDiffCorrect lo ln ops' n header`: well-formed hunks, header counts, true start
+  lines, increasing non-overlapping order, strict application gives the new lines, equal inputs render empty, hunk
+  shape, Display vs writer]; and when `lo ln` are the line tokens of two texts `bo bn` (`tokenize_lines`), every token
+  is a line (`IsLine`), so the byte-level clause (a) needs only the header names: the printed text (`to_writer`, hint
+  on) parses back to exactly the hunks `hs`, whose counts match, which are ordered and in range, and which patch the
+  old lines into exactly the new lines.
 
 "For every line diff, context radius and header setting,
 (a) the rendered unified diff parses as a sequence of hunks [`parseUnified out = some (header, hs)`; hypotheses: header
-    names without `\n`, every line is a line (`IsLine`: no inner line break — what `tokenize_lines` produces, (h)); the
+    names without `\n`, every line is a line (`IsLine`: no inner line break — what `tokenize_lines` produces; discharged in (h)); the
     configuration whose text is unambiguous: `to_writer`, line diff, hint on]
     whose '@@ -a,b +c,d @@' counts equal the numbers of old-side and new-side lines in the hunk body
 (b) and whose start lines are the true positions [the old / new indices of the changes of each group are exactly
@@ -57,10 +139,13 @@ Myers (no deadline), repaired swap, satisfy all hypotheses.
     UTF-8 input, while Display equals the lossy decoding of the writer's output otherwise [header names are `String`s,
     i.e. valid UTF-8]."
 
-Not covered by this theorem: the property for the SHIPPED swap (false: (i) and `C05.unified_needs_exact`; C11's known
-finding); `Exact` for the line diffs of Patience, and of Myers under a deadline (its deadline fallback emits an Insert
-carrying the old position before its Delete: `C01.myers_near_exact`; C11 is being extended separately); parsing of the other output modes (`Display`, non-line diffs, hint off) — their text is
-ambiguous or lossy; they are covered at the level of structured hunks by (f). -/
+Not covered by this theorem: the property for the SHIPPED swap (`textDiffOps alg false`) — false: (i),
+`C05.unified_needs_exact`, C11's known finding `KF-compact-swap`; `Exact` (hence (h)) for the line diffs of Myers and
+Patience under a deadline that EXPIRES — not proved (the deadline fallback of Myers emits an Insert carrying the old
+position before its Delete, `C11.expired_deadline_raw_not_exact`; no counterexample to exactness of the captured ops
+is known, see `C11_statement`'s "Not covered"); for such op lists the general clause still applies whenever they are
+`Exact`.  Parsing of the other output modes (`Display`, non-line diffs, hint off) — their text is ambiguous or
+lossy; they are covered at the level of structured hunks by (f). -/
 theorem C05_statement (old new : Array Bytes) (e : Nat → Nat → Bool) (he : Sound old new e)
     (ops : List Op) (n : Nat) (header : Option (Bytes × Bytes))
     (hw : Walk e 0 0 ops old.size new.size) (hx : Exact 0 0 ops) (ha : Alternating ops) :
@@ -102,52 +187,45 @@ theorem C05_statement (old new : Array Bytes) (e : Nat → Nat → Bool) (he : S
       [tagByte l.1] ++ (if isLossy then lossy l.2 else l.2) ++ (if nlt then [] else [10]) ++
         (if nlt && !endsWithNewline l.2 then
           (if hint then ascii "\n\\ No newline at end of file" else []) ++ [10] else [])) ∧
-    -- (h) the hypotheses are met by the line diffs of LCS (any deadline) and Myers (no deadline), repaired swap
-    (∀ (alg : Alg) (bo bn : Bytes) (w : World), (alg = .lcs ∨ (alg = .myers ∧ w.clock = none)) →
-      ∃ ops' w', textDiffOps alg true (TextP.tokens bo (tokenizeLinesB bo)) (TextP.tokens bn (tokenizeLinesB bn)) w =
-          .ok (ops', w') ∧
-        Sound (TextP.tokens bo (tokenizeLinesB bo)) (TextP.tokens bn (tokenizeLinesB bn))
-          (eqB (Env.ofTokens (TextP.tokens bo (tokenizeLinesB bo)) (TextP.tokens bn (tokenizeLinesB bn)))) ∧
-        Walk (eqB (Env.ofTokens (TextP.tokens bo (tokenizeLinesB bo)) (TextP.tokens bn (tokenizeLinesB bn)))) 0 0 ops'
-          (TextP.tokens bo (tokenizeLinesB bo)).size (TextP.tokens bn (tokenizeLinesB bn)).size ∧
+    -- (h) END TO END, no `Exact` hypothesis: the repaired swap, every algorithm, LCS under every clock, Myers and
+    --     Patience without a deadline — `textDiffOps` returns ops that meet the hypotheses, hence (a) – (f) hold of them
+    (∀ (alg : Alg) (w : World), (alg = .lcs ∨ w.clock = none) → ∀ (lo ln : Array Bytes),
+      ∃ ops' w', textDiffOps alg true lo ln w = .ok (ops', w') ∧
+        Sound lo ln (eqB (Env.ofTokens lo ln)) ∧
+        Walk (eqB (Env.ofTokens lo ln)) 0 0 ops' lo.size ln.size ∧
         Exact 0 0 ops' ∧ Alternating ops' ∧
-        (∀ v ∈ TextP.tokens bo (tokenizeLinesB bo), IsLine v) ∧ (∀ v ∈ TextP.tokens bn (tokenizeLinesB bn), IsLine v)) ∧
+        -- (a) – (f) for the ops returned
+        UnifiedDiffCorrect lo ln ops' n header ∧
+        -- two texts: `lo ln` the line tokens of `bo bn`
+        (∀ bo bn : Bytes, lo = TextP.tokens bo (tokenizeLinesB bo) → ln = TextP.tokens bn (tokenizeLinesB bn) →
+          (∀ v ∈ lo, IsLine v) ∧ (∀ v ∈ ln, IsLine v) ∧
+          -- (a), (c) at byte level: the printed text parses back to hunks that patch the old lines into the new ones
+          (GoodNames header → ∃ hs out,
+            hunksOf lo ln ((groupDiffOps ops' n).filter fun g => !g.isEmpty) = some hs ∧
+            renderUnified n header ops' lo ln true true false = .ok out ∧
+            parseUnified out = some (if hs = [] then none else header, hs) ∧
+            (∀ h ∈ hs, oldCount h.body = h.oE - h.oS ∧ newCount h.body = h.nE - h.nS) ∧
+            hs.Pairwise Before ∧ (∀ h ∈ hs, InRange lo.size ln.size h) ∧
+            applyHunks lo hs = some ln.toList))) ∧
     -- (i) … and NOT by the shipped clean-up
     (∃ (E : Env) (ops0 : List Op) (o0 n0 o1 n1 : Nat) (w : World) (ops1 : List Op) (w' : World),
       NoReplaceOp ops0 ∧ Walk (eqB E) o0 n0 ops0 o1 n1 ∧ Exact o0 n0 ops0 ∧
       cleanupDiffOps E false ops0 w = .ok (ops1, w') ∧ ¬ Exact o0 n0 ops1) := by
-  have hne := C09.walk_no_empty e ops _ _ _ _ hw
-  have hv : AltOps ops := altOps_of_alternating ops hne ha
-  have hs' : SAltT (ops.map Op.tag) := sAltT_of_alternating ops ha
-  refine ⟨?_, ?_, ?_, ?_, ?_, ?_, ?_, ?_, C05.unified_needs_exact⟩
-  · obtain ⟨hs, h1, h2, _⟩ := C05.unified_applies old new e he ops n header true true false hw hx hv
-    refine ⟨hs, h1, ?_, ?_, C05.hunks_increasing old new e ops n _ _ hw hx hs h1, h2⟩
-    · intro nlt hint isLossy
-      obtain ⟨hs2, g1, -, g3⟩ := C05.unified_applies old new e he ops n header nlt hint isLossy hw hx hv
-      rw [h1] at g1; cases g1; exact g3
-    · intro hn hlo hln
-      obtain ⟨hs2, out, g1, g2, g3, g4, -⟩ := C05.parse_of_rendered old new e he ops n header hw hx hv hn hlo hln
-      rw [h1] at g1; cases g1
-      exact ⟨out, g2, g3, g4⟩
-  · intro g hg
-    obtain ⟨f, l, a1, a2, -, -, -, -, a7, a8, a9, a10⟩ := C05.header_counts_match e ops n _ _ hw hx g hg
-    exact ⟨f, l, a1, a2, a7, a8, a9, a10⟩
-  · intro hc nlt hint isLossy
-    exact C05.equal_inputs_render_empty ops n header old new nlt hint isLossy hv hc
-  · intro g hg
-    exact ⟨C05.hunk_shape ops n hv g hg, C05.deletions_before_insertions ops n hv hs' g hg⟩
-  · intro hh nlt hint
-    exact C05.display_is_lossy_writer n header ops old new nlt hint hh
-  · intro ht nlt hint
-    exact C05.display_eq_writer_on_utf8 old new ht n header ops nlt hint
+  obtain ⟨c1, c2, c3, c4, c5, c6⟩ := unifiedDiffCorrect_of old new e he ops n header hw hx ha
+  refine ⟨c1, c2, c3, c4, c5, c6, ?_, ?_, C05.unified_needs_exact⟩
   · intro nlt hint isLossy l; rfl
-  · intro alg bo bn w halg
-    obtain ⟨ops', w', hc, hw', hx', ha'⟩ := capture_exact_repaired_total alg
-      (Env.ofTokens (TextP.tokens bo (tokenizeLinesB bo)) (TextP.tokens bn (tokenizeLinesB bn))) 0 _ 0 _ w halg
-      (Nat.zero_le _) (Nat.zero_le _) (TextP.inBounds_ofTokens _ _)
-    refine ⟨ops', w', by rw [IdentP.textDiffOps_eq_capture]; exact hc, sound_ofTokens _ _, hw', hx', ha', ?_, ?_⟩
-    · intro v hv; exact C05.lines_are_lines bo v hv
-    · intro v hv; exact C05.lines_are_lines bn v hv
+  · intro alg w halg lo ln
+    obtain ⟨ops', w', hc, hw', hx', ha'⟩ := G1.textDiffOps_exact_repaired alg lo ln w halg
+    have hu := unifiedDiffCorrect_of lo ln _ (sound_ofTokens lo ln) ops' n header hw' hx' ha'
+    refine ⟨ops', w', hc, sound_ofTokens lo ln, hw', hx', ha', hu, ?_⟩
+    rintro bo bn rfl rfl
+    have hlo : ∀ v ∈ TextP.tokens bo (tokenizeLinesB bo), IsLine v := fun v hv => C05.lines_are_lines bo v hv
+    have hln : ∀ v ∈ TextP.tokens bn (tokenizeLinesB bn), IsLine v := fun v hv => C05.lines_are_lines bn v hv
+    refine ⟨hlo, hln, ?_⟩
+    intro hn
+    obtain ⟨⟨hs, h1, -, h3, h4, h5⟩, -⟩ := hu
+    obtain ⟨out, g1, g2, g3⟩ := h3 hn hlo hln
+    exact ⟨hs, out, h1, g1, g2, g3, h4.1, h4.2, h5⟩
 
 #print axioms C05_statement
 
@@ -162,5 +240,36 @@ example : Exact 0 0 [.equal 0 0 1, .replace 1 1 1 1] ∧ Alternating [.equal 0 0
 /-- … and renders (writer path, hint on) as `@@ -1,2 +1,2 @@`, ` a`, `-b`, `+c`, `\ No newline at end of file` -/
 example : renderUnified 3 none [.equal 0 0 1, .replace 1 1 1 1] #[[97,10],[98,10]] #[[97,10],[99]] true true false =
     .ok (ascii "@@ -1,2 +1,2 @@\n a\n-b\n+c\n\\ No newline at end of file\n") := by rfl
+
+/-- non-vacuity of (h): its hypothesis holds for every algorithm in a world without a deadline, and for LCS in every
+world … -/
+example : ∀ alg : Alg, alg = .lcs ∨ ({} : World).clock = none := fun _ => .inr rfl
+example : ∀ w : World, Alg.lcs = .lcs ∨ w.clock = none := fun _ => .inl rfl
+
+/-- … "a\nb\n" vs "b\nb\n" — the input on which the clean-up swaps a Delete / Insert pair: the PATIENCE line diff (not
+covered before) with the repaired swap returns exact positions (the Insert carries old position 2), as do Myers, and
+LCS with an already expired deadline; the shipped swap does not (the Delete claims new position 1, true 0) … -/
+example : ∀ alg : Alg, (textDiffOps alg true (TextP.tokens [97,10,98,10] (tokenizeLinesB [97,10,98,10]))
+    (TextP.tokens [98,10,98,10] (tokenizeLinesB [98,10,98,10])) {}).map (·.1) =
+    .ok [.delete 0 1 0, .equal 1 0 1, .insert 2 1 1] := by
+  intro alg; cases alg <;> rfl
+example : (textDiffOps .lcs true (TextP.tokens [97,10,98,10] (tokenizeLinesB [97,10,98,10]))
+    (TextP.tokens [98,10,98,10] (tokenizeLinesB [98,10,98,10])) { clock := some 0 }).map (·.1) =
+    .ok [.delete 0 1 0, .equal 1 0 1, .insert 2 1 1] := by rfl
+example : Exact 0 0 [.delete 0 1 0, .equal 1 0 1, .insert 2 1 1] ∧
+    Alternating [.delete 0 1 0, .equal 1 0 1, .insert 2 1 1] := by
+  simp [Exact, Alternating, Op.oStart, Op.nStart, Op.oLen, Op.nLen, Op.tag]
+example : (textDiffOps .patience false (TextP.tokens [97,10,98,10] (tokenizeLinesB [97,10,98,10]))
+    (TextP.tokens [98,10,98,10] (tokenizeLinesB [98,10,98,10])) {}).map (·.1) =
+    .ok [.delete 0 1 1, .equal 1 0 1, .insert 1 1 1] ∧ ¬ Exact 0 0 [.delete 0 1 1, .equal 1 0 1, .insert 1 1 1] := by
+  refine ⟨by rfl, ?_⟩
+  simp [Exact, Op.oStart, Op.nStart, Op.oLen, Op.nLen]
+
+/-- … and with radius 0 the exact list renders as two hunks with the true start lines, `@@ -1 +0,0 @@`, `-a`,
+`@@ -2,0 +2 @@`, `+b` (the shipped list would print `@@ -1 +1,0 @@` for the first) -/
+example : renderUnified 0 none [.delete 0 1 0, .equal 1 0 1, .insert 2 1 1] #[[97,10],[98,10]] #[[98,10],[98,10]]
+    true true false = .ok (ascii "@@ -1 +0,0 @@\n-a\n@@ -2,0 +2 @@\n+b\n") := by rfl
+example : renderUnified 0 none [.delete 0 1 1, .equal 1 0 1, .insert 1 1 1] #[[97,10],[98,10]] #[[98,10],[98,10]]
+    true true false = .ok (ascii "@@ -1 +1,0 @@\n-a\n@@ -2,0 +2 @@\n+b\n") := by rfl
 
 end SimilarVerif.Headline
